@@ -37,6 +37,18 @@ type Options struct {
 	// NoCompound leaves the compound edit "duplicate an element and change one leaf of the copy" out
 	// (checks whose oracle costs hundreds of lint runs per state).
 	NoCompound bool
+	// Only, if set, restricts the successors to the edits whose description it accepts.
+	Only func(desc string) bool
+}
+
+// Structural accepts the edits that change the shape of a list — delete, duplicate, swap, grow — and nothing else.
+func Structural(desc string) bool {
+	i := strings.IndexByte(desc, ':')
+	if i < 0 {
+		return false
+	}
+	op := desc[i+1:]
+	return op == "delete" || op == "dup" || op == "swapNext" || strings.HasPrefix(op, "gr")
 }
 
 // Explore enumerates states, hands parser-accepted ones that belong to this
@@ -86,7 +98,10 @@ func Explore(ctx *core.Ctx, rep *core.Report, opt Options, visit func(*State)) {
 			continue
 		}
 		der.Successors(root, nil, func(desc string, enc []byte) {
-			if opt.NoCompound && strings.Contains(desc, ":dm") {
+			if opt.NoCompound && (strings.Contains(desc, ":dm") || strings.Contains(desc, ":gr")) {
+				return
+			}
+			if opt.Only != nil && !opt.Only(desc) {
 				return
 			}
 			eval(sd, []string{desc}, enc)
